@@ -360,9 +360,9 @@ func genC18(o *hx.Out, tier string) {
 	gdir := filepath.Join(hroot, "gen18")
 	os.RemoveAll(gdir)
 	os.MkdirAll(filepath.Join(gdir, "again"), 0o755) //nolint:errcheck
-	npk := 6
+	npk := 12
 	if tier == "thorough" {
-		npk = 40
+		npk = 60
 	}
 	type pkg struct {
 		name  string
